@@ -58,6 +58,63 @@ func runC14(c *Ctx) {
 				}
 				txs = append(txs, extractOf(call, 0)...)
 			})
+			// a helper that runs a transaction it is handed to its end (it commits the *sql.Tx parameter): the shared tail
+			// of several drivers' Transaction methods. It is held to the typestate itself ...
+			ownsCommit := func(h *ssa.Function) *ssa.Parameter {
+				for _, p := range h.Params {
+					if !typeIs(p.Type(), "database/sql", "Tx") {
+						continue
+					}
+					owns := false
+					eachInstr(h, func(_ *ssa.BasicBlock, _ int, ins ssa.Instruction) {
+						// (a parameter that a deferred closure captures is spilled to a cell: follow the loads)
+						if cl, ok := ins.(*ssa.Call); ok && isTxMethod(ins, "Commit") && len(cl.Call.Args) > 0 && derivesFrom(cl.Call.Args[0], func(v ssa.Value) bool { return v == ssa.Value(p) }) {
+							owns = true
+						}
+					})
+					if owns {
+						return p
+					}
+				}
+				return nil
+			}
+			if len(txs) == 0 {
+				if p := ownsCommit(fn); p != nil {
+					txs = append(txs, p)
+				}
+			} else {
+				// ... and a function that begins a transaction and hands it to such a helper has delegated the typestate:
+				// what is left to it is to return the helper's verdict
+				var deleg *ssa.Call
+				eachInstr(fn, func(_ *ssa.BasicBlock, _ int, ins ssa.Instruction) {
+					cl, ok := ins.(*ssa.Call)
+					if !ok {
+						return
+					}
+					h := staticFn(cl)
+					if h == nil || h.Pkg != fn.Pkg || ownsCommit(h) == nil {
+						return
+					}
+					for _, a := range cl.Call.Args {
+						for _, tx := range txs {
+							if a == tx {
+								deleg = cl
+							}
+						}
+					}
+				})
+				if deleg != nil {
+					nTx++
+					returned := false
+					eachInstr(fn, func(_ *ssa.BasicBlock, _ int, ins ssa.Instruction) {
+						if r, ok := ins.(*ssa.Return); ok && len(r.Results) > 0 && stripConv(retVals(r)[len(r.Results)-1]) == ssa.Value(deleg) {
+							returned = true
+						}
+					})
+					c.ob("C14-R1", fnKey(fn)+"#returns-the-verdict-of-"+staticFn(deleg).Name(), deleg.Pos(), returned, "the transaction is run to its end by "+staticFn(deleg).Name()+" but its error is not what this function returns: a rolled-back transaction is reported as done")
+					continue
+				}
+			}
 			// … or opens a savepoint on a transaction it was given (a nested transaction): the same typestate,
 			// with ROLLBACK TO SAVEPOINT / RELEASE SAVEPOINT in the roles of Rollback / Commit
 			savepoint := false
@@ -387,7 +444,7 @@ func runC14(c *Ctx) {
 			})
 		}
 		c.Sites["C14-R4#savepoints"] = ns
-		c.floor("C14-R4", 4)
+		c.floor("C14-R4", 2)
 	}
 
 	c.rule("C14-R3", "def-use: every context key under which a *sql.Tx is stored with context.WithValue in pkg/database is read back (ctx.Value(key)) somewhere in the package; a key that is written and never read means ORM calls inside ORM.Transaction's callback run on the pool, outside the transaction")
